@@ -90,7 +90,7 @@ func ReadUtcTime(reader Asn1Reader) (*time.Time, error) {
 	if err != nil {
 		return nil, err
 	}
-	lastUpdateUtcBytes, err := ReadExpectedBytes(reader, int(lastUpdateUtcTag.Length.Length.Int64()))
+	lastUpdateUtcBytes, err := ReadValueBytesWithLimit(reader, *lastUpdateUtcTag, maxValueLength)
 	if err != nil {
 		return nil, err
 	}
@@ -110,7 +110,7 @@ func ParseBitString(reader Asn1Reader) (*BitString, error) {
 	if err != nil {
 		return nil, err
 	}
-	readBytes, err := ReadExpectedBytes(reader, int(tagLength.Length.Length.Int64()))
+	readBytes, err := ReadValueBytesWithLimit(reader, *tagLength, maxValueLength)
 	if err != nil {
 		return nil, err
 	}
@@ -138,7 +138,7 @@ func ParseOctetString(reader Asn1Reader) (ret []byte, err error) {
 	if err != nil {
 		return nil, err
 	}
-	return ReadExpectedBytes(reader, int(tagLength.Length.Length.Int64()))
+	return ReadValueBytesWithLimit(reader, *tagLength, maxValueLength)
 }
 
 func ParseUTCTime(bytes []byte) (*time.Time, error) {
@@ -172,7 +172,7 @@ func ReadStruct(reader Asn1Reader, value interface{}) error {
 	if err != nil {
 		return err
 	}
-	tlvBytes, err := ReadTVLBytesWithLimit(reader, *tagLength, 81920)
+	tlvBytes, err := ReadTVLBytesWithLimit(reader, *tagLength, maxValueLength)
 	if err != nil {
 		return err
 	}
@@ -184,6 +184,18 @@ func ReadStruct(reader Asn1Reader, value interface{}) error {
 		return errors.New("trailing data after asn1 object")
 	}
 	return nil
+}
+
+// maxValueLength is the largest value length accepted for a single element which is read into memory as a whole
+const maxValueLength = 81920
+
+// ReadValueBytesWithLimit reads the value bytes announced by tagLength, refusing lengths greater than maxLength
+func ReadValueBytesWithLimit(reader Asn1Reader, tagLength TagLength, maxLength int64) ([]byte, error) {
+	err := ExpectLengthNotGreater(big.NewInt(maxLength), &tagLength.Length.Length)
+	if err != nil {
+		return nil, err
+	}
+	return ReadExpectedBytes(reader, int(tagLength.Length.Length.Int64()))
 }
 
 func ReadTVLBytesWithLimit(reader Asn1Reader, tagLength TagLength, maxLength int64) ([]byte, error) {
@@ -378,7 +390,7 @@ func ReadBigInt(reader Asn1Reader) (*big.Int, error) {
 	if err != nil {
 		return nil, err
 	}
-	readBytes, err := ReadExpectedBytes(reader, int(tagLength.CalculateValueLength().Int64()))
+	readBytes, err := ReadValueBytesWithLimit(reader, *tagLength, maxValueLength)
 	if err != nil {
 		return nil, err
 	}
